@@ -275,6 +275,8 @@ OkSQ(e) ==
 \* a long history in one event (Bulk.tla): n distinct caller-made ranges, all inside the file
 OkSBulk(e) ==
     IF sth = <<>> THEN Out(e) = "closed"
+    ELSE IF Has(e, "size0") /\ e.size0 > 0
+         THEN Out(e) = "ok" /\ e.res.nok = BulkNok(sth.f.len, e.n, e.m, e.size0)
     ELSE LET B(i) == ByteAt(sth.f, i)
              x == BulkExp(B, sth.f.len, e.n, e.m)
          IN Out(e) = "ok" /\ e.res.nok = x[1] /\ e.res.sum = x[2]
